@@ -18,7 +18,7 @@ def run(ctx):
                 'connectivity; clip geometries (boxes, triangles, lines, points, touching, covering) x buffers 0-2; masks applied '
                 'directly or saved, reloaded and applied to a second dataset with the same geometry and other data. one case = one '
                 'variable of one clip; non-trivial = the clip drops at least one cell; distinct by content')
-    fl, tmp = cc.flows(ctx, 40 if quick else 140, quick)
+    fl, tmp = cc.flows(ctx, 55 if quick else 165, quick)
     exprs, plans = [], []
     try:
         for f in fl:
